@@ -17,6 +17,7 @@ func newFake(req request) *fakeDocker {
 		containers: get[[]fakeContainer](req, "containers"),
 		listFail:   get[bool](req, "list_fail"),
 		release:    get[[]int](req, "release"),
+		lateLast:   get[bool](req, "late_last"),
 	}
 }
 
